@@ -194,7 +194,7 @@ func (u *Unit) isFreshInIteration(term string, numBefore int, entryAlloc string)
 // first. A heap that is not a plain symbol (a store chain or a merge, possibly behind a defined name: an
 // ite inside a pattern is rejected by z3) gets a constant equal to it to trigger on.
 func (u *Unit) backPattern(st *State, old T) string {
-	if os.Getenv("GOVC_NO_BACKPATTERN") != "" {
+	if !u.backpat {
 		return ""
 	}
 	name := strings.Trim(old.S, "|")
